@@ -198,6 +198,58 @@ func ruleC18_1(c *Ctx) {
 			c.check(everyIteration(findIndex(st.Addr), st), R, fn, "assignment to "+o+" happens for every element", st.Pos(), "the assignment lies on every path through the loop body", "the field is not assigned for every element: some steps / inspections are skipped (their markers stay unsubstituted)")
 		}
 	}
+	// Style C: the loop over one of the two lists lives in an unexported helper that receives the list. The helper's
+	// stores are judged like the in-place assignments of style A, with the helper's parameter read as the list it is
+	// called with (that the call lies on every success path with a non-empty dictionary is R-C18-8).
+	for _, call := range allCalls(f) {
+		g := call.Common().StaticCallee()
+		if g == nil || g.Blocks == nil || g.Pkg != f.Pkg || (g.Object() != nil && g.Object().Exported()) {
+			continue
+		}
+		if _, isCall := call.(*ssa.Call); !isCall {
+			continue
+		}
+		for j, a := range call.Common().Args {
+			list := org(a)
+			if !containerRe.MatchString(list) || j >= len(g.Params) {
+				continue
+			}
+			prm := fmt.Sprintf("p%d", j)
+			tr := func(o string) (string, bool) {
+				if o == prm || strings.HasPrefix(o, prm+"[") || strings.HasPrefix(o, prm+".") {
+					return list + strings.TrimPrefix(o, prm), true
+				}
+				return o, false
+			}
+			for _, b := range g.Blocks {
+				for _, in := range b.Instrs {
+					st, ok := in.(*ssa.Store)
+					if !ok {
+						continue
+					}
+					o, below := tr(org(st.Addr))
+					if !below {
+						continue
+					}
+					helper, expected := want[o]
+					if !expected {
+						c.bad(R, fname(g), "assignment to "+o, st.Pos(), "a field outside the six substituted ones is assigned: layout."+strings.TrimPrefix(o, "p0."))
+						continue
+					}
+					seen[o]++
+					pc, idx := producer(st.Val, st)
+					okVal := pc != nil && idx == 0 && calleeName(pc) == helper && sameElement(st.Addr, pc.Common().Args[1])
+					if okVal {
+						ao, _ := tr(org(pc.Common().Args[1]))
+						okVal = ao == o
+					}
+					c.check(okVal, R, fname(g), "assignment to "+o, st.Pos(), helper+"(replacer, same field of the same element)", "assigned value is "+short(org(st.Val))+", not the substitution of this very field")
+					c.check(wholeSliceIndex(st.Addr), R, fname(g), "loop over the whole list for "+o, st.Pos(), "element index is the range-index induction variable", "the element index is not the induction variable of a range over the whole list")
+					c.check(everyIteration(findIndex(st.Addr), st), R, fname(g), "assignment to "+o+" happens for every element", st.Pos(), "the assignment lies on every path through the loop body", "the field is not assigned for every element: some steps / inspections are skipped (their markers stay unsubstituted)")
+				}
+			}
+		}
+	}
 	// fresh lists that are filled but never become part of the result are ignored; fresh lists stored into the layout
 	// were handled above. A field substituted twice is not a single pass.
 	for o, n := range seen {
